@@ -8,7 +8,7 @@
    time steps (a negative time step is rejected by the machine, so histories are
    time-monotone) -- unbounded.  A reachable state is [c_run cfg c_init evs].
    "Displaced" = a loading future that a Set replaced in the map (ghost list c_displaced). *)
-From Got Require Import Base Cache CacheProofs CacheSteps CacheStepsProofs CacheStepsFull CacheStepsFullProofs.
+From Got Require Import Base Cache CacheProofs CacheSteps CacheStepsProofs CacheStepsFull CacheStepsFullProofs CacheOptions CacheOptionsProofs.
 Local Open Scope Z_scope.
 
 (* single flight:
@@ -334,3 +334,68 @@ Theorem cache_key_ghost_refuted :
   c_map (cs_m (cf_s s2)) = [] /\ c_map (cs_g (cf_s s2)) = [].
 Proof. split; [unfold c_cfg_ok; cbn; lia|]. vm_compute. repeat split. Qed.
 Print Assumptions cache_key_ghost_refuted.
+
+(* ---- the configuration of a cache; several caches in one process (models/CacheOptions.v)
+
+   createArguments (copt_create: the fold of the options over the literal defaults; None = an
+   assert of an option panics): whatever option list NewCache accepts gives arguments with
+   parallel > 0, 0 < errorExpire <= normalExpire, jobChanSize > 0, i.e. a configuration for
+   which all theorems above and those of C05.v hold *)
+Theorem cache_arguments_accepted_are_ok :
+  forall opts a, copt_create opts = Some a -> copt_ok a /\ c_cfg_ok (copt_cfg a).
+Proof. exact copt_create_ok. Qed.
+Print Assumptions cache_arguments_accepted_are_ok.
+
+(* an option that is not passed leaves its default: 1 s / 100 ms, parallel 1, jobChanSize 128 *)
+Theorem cache_omitted_option_is_default :
+  forall opts a, copt_create opts = Some a ->
+  (forallb (fun o => negb (copt_is_expire o)) opts = true -> copt_normE a = 1000000000 /\ copt_errE a = 100000000) /\
+  (forallb (fun o => negb (copt_is_parallel o)) opts = true -> copt_parallel a = 1) /\
+  (forallb (fun o => negb (copt_is_jcs o)) opts = true -> copt_jcs a = 128).
+Proof. exact copt_omitted_is_default. Qed.
+Print Assumptions cache_omitted_option_is_default.
+
+(* THE CONFIGURATION AND THE BEHAVIOUR OF A CACHE ARE A FUNCTION OF ITS OWN OPTION LIST AND ITS
+   OWN EVENTS ONLY.  Process machine mc_step: any number of caches; evs1 = ANY process history
+   before this NewCache (other caches created with any option lists -- including ones that
+   panic --, any calls on them, clock steps), evs2 = ANY process history after it (calls on
+   this and on other caches, further caches, clock steps).  The cache created by
+   NewCache(opts...) is the i-th of the process; at every moment its arguments are
+   copt_create opts and its state is the state of a lone cache of models/Cache.v with those
+   arguments that started empty at the creation instant and saw only its own events
+   (mc_proj: its calls / worker actions / sweeps and the clock steps); every output of a call
+   on it is the lone cache's output.  Hence every theorem of this file and of C05.v (stated
+   for c_run cfg c_init evs, all cfg, all evs) holds for every cache of a process with
+   cfg = copt_cfg (copt_create of ITS options). *)
+Theorem cache_is_function_of_own_options_and_events :
+  forall evs1 opts evs2 a,
+  copt_create opts = Some a ->
+  let s1 := mc_run mc_init evs1 in
+  let i := length (mc_caches s1) in
+  let s := mc_run s1 (McNew opts :: evs2) in
+  exists c, nth_error (mc_caches s) i = Some c /\
+    mc_args c = a /\
+    mc_st c = c_run (copt_cfg a) c_init (CAdvance (mc_now s1) :: mc_proj i evs2) /\
+    (forall ev, mc_is_advance ev = false ->
+       snd (mc_step s (McCall i ev)) =
+       McOEv (snd (c_step (copt_cfg a) (c_run (copt_cfg a) c_init (CAdvance (mc_now s1) :: mc_proj i evs2)) ev))).
+Proof. exact mc_isolation. Qed.
+Print Assumptions cache_is_function_of_own_options_and_events.
+
+(* non-vacuity: cache 0 = NewCache(WithExpire(1600, 1600), WithParallel(4)), used; then cache 1 =
+   NewCache() gets the defaults, and a result of cache 1 that is 20 ms old is fresh (Load returns
+   the same future, no job) although it would be rotted under cache 0's expiry; WithExpire(5, 9)
+   and WithJobChanSize(0) panic *)
+Example c04_options_nonvacuous :
+  let evs := [McNew [CoptExpire 1600 1600; CoptParallel 4]; McCall 0 (CLoad 7); McCall 0 (CStart 7);
+              McAdvance 17; McCall 0 (CFinish 7 0 5 0); McNew []; McCall 1 (CLoad 7); McCall 1 (CStart 7);
+              McAdvance 17; McCall 1 (CFinish 7 0 6 0); McAdvance 20000000] in
+  let s := mc_run mc_init evs in
+  map mc_args (mc_caches s) =
+    [{| copt_parallel := 4; copt_normE := 1600; copt_errE := 1600; copt_jcs := 128 |}; copt_default] /\
+  snd (mc_step s (McCall 1 (CLoad 7))) = McOEv (OLoad 0 false) /\
+  snd (mc_step s (McCall 0 (CLoad 7))) = McOEv (OLoad 1 true) /\
+  copt_create [CoptExpire 5 9] = None /\ copt_create [CoptJobChanSize 0] = None /\
+  copt_create [CoptParallel 0; CoptExpire 9 5; CoptExpire 8 8] =
+    Some {| copt_parallel := 1; copt_normE := 8; copt_errE := 8; copt_jcs := 128 |}.
+Proof. vm_compute. repeat split. Qed.
